@@ -32,10 +32,12 @@ def nosupport(flags):
     return [] if flags & 8 else ["env HWLOC_XML_EXPORT_SUPPORT 0"]
 
 
-def matrix(ctx, rng, tag, flags, thorough, k, ncomb=3):
-    """the export/import steps for slot 0 -> slot 1"""
+def matrix(ctx, rng, tag, flags, thorough, k, ncomb=3, first=None):
+    """the export/import steps for slot 0 -> slot 1; first = (export mode, format) of the first export when it matters"""
     combos = [(me, mi, v2, ud) for me in ("buffer", "file") for mi in ("buffer", "file") for v2 in (0, 2) for ud in (0, 1)]
     picks = combos if thorough else rng.sample(combos, ncomb) + [("buffer", "buffer", 0, 1)]
+    if first:
+        picks = [(first[0], rng.choice(["buffer", "file"]), first[1], rng.randrange(2))] + picks
     lines = []
     for j, (me, mi, v2, ud) in enumerate(picks):
         p1 = ctx.path("x-%s-%d-%d.xml" % (tag, k, j))
@@ -92,14 +94,29 @@ def run(ctx, replay=None):
         if st["error"]:
             raise vlib.Infra("MC_TopoOps simulation failed: %s\n%s" % (st["error"], out[-2000:]))
         sims = list(vlib.tlc_printed(out, "SIM"))
-        nsim = 400 if thorough else 40
+        nsim = 400 if thorough else 30
         if len(sims) > nsim:
             sims = rng.sample(sims, nsim)
-        for h in [[]] + sims:
-            flags = rng.choice([0, 1, 8, 9, 128, 256 | 512])
+        # every edge to depth 2 of the calls that fill the stores (distances, memory attributes, CPU kinds, infos, Misc, Group) and restrict:
+        # what the exporter has to write is then exactly what a modification left behind
+        out, st = ctx.tlc_mc("MC_TopoOps_gen", c02.mc_cfg(2, False, 1, 0, 0, True, "GOpsStores"), tag="xml_bfs_" + name,
+                             workers=8, extra_modules=gen, timeout=1800)
+        if st["error"] or st["rc"] != 0:
+            raise vlib.Infra("MC_TopoOps (stores) failed: %s\n%s" % (st["error"], out[-2000:]))
+        edges = list(vlib.tlc_printed(out, "EDGE"))
+        picked, nsig, allsig = c02.stratified(edges, 3000 if thorough else 110, rng, c02.prio_stores)
+        ctx.extra["xml_bfs_" + name] = {"edges": len(edges), "signatures": allsig, "signatures_replayed": nsig, "edges_replayed": len(picked)}
+        prio0 = [h for h in picked if len(h) >= 2 and h[-1][0] == "restrict" and h[-1][4] == 0 and h[-2][0] in ("dist_add", "memattr", "cpukind", "cpukind_info")]
+        todo = [(h, None) for h in [[]] + sims + picked]
+        # what a modification left behind must be exported right by the very first export, through either entry point: lazy store observation,
+        # first export in the v3 format to a buffer and to a file
+        todo += [(h, (me, 0)) for h in (prio0 if thorough else prio0[:40]) for me in ("buffer", "file")]
+        for h, first in todo:
+            flags = rng.choice([0, 1, 8, 9, 128, 256 | 512]) if not first else rng.choice([0, 1, 8])
             cfg = rng.choice([["filter 0 19 0"], ["filter 0 -1 0"], ["filter 0 -1 2", "filter 0 19 0"], []])
-            lines = (["reset 2", "option stores 1"] + nosupport(flags) + ["init 0", "synthetic 0 " + desc] + cfg + ["flags 0 %d" % flags, "load 0"]
-                     + special(c02.render(h, info[name], choices), rng) + matrix(ctx, rng, name, flags, thorough, k))
+            # lazy store observation for every other behaviour: the recorder does not query (and thereby refresh) the stores before the first export
+            lines = (["reset 2", "option stores %d" % (2 if (k % 2 == 0 or first) else 1)] + nosupport(flags) + ["init 0", "synthetic 0 " + desc] + cfg + ["flags 0 %d" % flags, "load 0"]
+                     + special(c02.render(h, info[name], choices), rng) + matrix(ctx, rng, name, flags, thorough, k, first=first))
             k += 1
             behs.append("\n".join(lines) + "\n")
     # (1b) userdata whose content has XML-special characters, in dedicated behaviours (known finding with the nolibxml backend)
